@@ -1090,7 +1090,7 @@ static size_t _GD_DoMultiply(DIRFILE *restrict D, gd_entry_t *restrict E,
     return 0;
   }
 
-  if (n_read2 > 0 && n_read2 * spf1 < n_read * spf2)
+  if (n_read2 * spf1 < n_read * spf2)
     n_read = n_read2 * spf1 / spf2;
 
   if (type2 & GD_COMPLEX)
@@ -1213,7 +1213,7 @@ static size_t _GD_DoDivide(DIRFILE *restrict D, gd_entry_t *restrict E,
     return 0;
   }
 
-  if (n_read2 > 0 && n_read2 * spf1 < n_read * spf2)
+  if (n_read2 * spf1 < n_read * spf2)
     n_read = n_read2 * spf1 / spf2;
 
   if (type2 & GD_COMPLEX)
@@ -1457,7 +1457,7 @@ static size_t _GD_DoWindow(DIRFILE *restrict D, gd_entry_t *restrict E,
     return 0;
   }
 
-  if (n_read2 > 0 && n_read2 * spf1 < n_read * spf2)
+  if (n_read2 * spf1 < n_read * spf2)
     n_read = n_read2 * spf1 / spf2;
 
   _GD_WindowData(D, data_out, spf1, tmpbuf, spf2, return_type,
@@ -1623,7 +1623,7 @@ static size_t _GD_DoMplex(DIRFILE *restrict D, gd_entry_t *restrict E,
     _GD_Seek(D, E->e->entry[1], first_samp2 + n_read2, GD_SEEK_SET);
   }
 
-  if (n_read2 > 0 && n_read2 * spf1 < n_read * spf2)
+  if (n_read2 * spf1 < n_read * spf2)
     n_read = n_read2 * spf1 / spf2;
 
   _GD_MplexData(D, data_out, spf1, tmpbuf, spf2, return_type,
